@@ -522,7 +522,9 @@ Definition C12_complete (c : ccfg) (r : round) : option string :=
   end.
 
 Definition C12_check := check_with (fun c r =>
-  orelse (with_parent (fun p => C12_round c p (r_key r) (r_events r) (r_result r) (r_queue r)) r)
+  orelse (with_parent (fun p => orelse (C12_round c p (r_key r) (r_events r) (r_result r) (r_queue r))
+                                        (* a refused status write is not reported as success (nothing would retry it) *)
+                                        (C11_written_when_different c p (r_events r) (r_result r))) r)
          (orelse (C12_complete c r)
                  (if child_write_seen c (r_events r) &&
                      negb (match k_parent (r_cache r) with Some p => status_phase_seen c p (r_events r) | None => true end)
